@@ -101,6 +101,42 @@ fn scenario_scripts(kind: usize, g: &mut Gen, snap: &Value, conns: &[String]) ->
                 m.insert(c.clone(), vec![cmd("NICK", vec![vec![n.clone()]]), cmd("ISON", vec![vec![n.clone()]])]);
             }
         }
+        // simultaneous registrations under distinct nicknames while the others ask for the counts
+        8 => {
+            for (i, c) in unauth.iter().enumerate() {
+                let idx = CONNS.iter().position(|x| *x == c.as_str()).unwrap_or(0) + 1;
+                let mut sc = vec![];
+                if g.profile == "pw" || g.profile == "full" {
+                    sc.push(cmd("PASS", vec![vec![s("srvpass")]]));
+                }
+                sc.push(cmd("NICK", vec![vec![format!("fresh{}", i)]]));
+                sc.push(cmd("USER", vec![vec![format!("u{}", idx)], vec![s("R")]]));
+                sc.push(cmd("LUSERS", vec![]));
+                m.insert(c.clone(), sc);
+            }
+            for c in &authed {
+                m.insert(c.clone(), vec![cmd("LUSERS", vec![]), cmd("ISON", vec![vec![s("fresh0"), s("fresh1"), s("fresh2")]])]);
+            }
+        }
+        // fresh connections claim ONE nickname and complete registration together, while an operator
+        // login (password hashing under the state lock) makes them queue up
+        9 => {
+            let n = s(NICKS[g.rng.gen_range(0..NICKS.len())]);
+            for c in unauth.iter() {
+                let idx = CONNS.iter().position(|x| *x == c.as_str()).unwrap_or(0) + 1;
+                let mut sc = vec![];
+                if g.profile == "pw" || g.profile == "full" {
+                    sc.push(cmd("PASS", vec![vec![s("srvpass")]]));
+                }
+                sc.push(cmd("NICK", vec![vec![n.clone()]]));
+                sc.push(cmd("USER", vec![vec![format!("u{}", idx)], vec![s("R")]]));
+                sc.push(cmd("WHOIS", vec![vec![n.clone()]]));
+                m.insert(c.clone(), sc);
+            }
+            if let Some(c) = authed.get(0) {
+                m.insert(c.clone(), vec![cmd("OPER", vec![vec![s("god")], vec![s("godpass")]]), cmd("ISON", vec![vec![n.clone()]])]);
+            }
+        }
         // random scripts
         _ => {
             for c in conns {
@@ -184,7 +220,16 @@ async fn run_rounds(id: &str, cfg: &Value, seed: u64, rounds: usize, nconn: usiz
             }
         }
         snap = sess.snapshot().await;
-        let kind = (seed as usize + r) % 8;
+        let kind = (seed as usize + r) % 11;
+        if kind == 8 || kind == 9 {
+            // make room for fresh registrations: three connections start over
+            for c in conns.iter().skip(2) {
+                sess.step(c, &cmd("!close", vec![])).await;
+                sess.retire_ended();
+                sess.step(c, &cmd("!open", vec![])).await;
+            }
+            snap = sess.snapshot().await;
+        }
         let scripts = scenario_scripts(kind, &mut g, &snap, &conns);
         if scripts.is_empty() {
             continue;
